@@ -114,6 +114,7 @@ def gen_single(rng, fn, force_empty=False, k=0):
         dtype = "float64" if (r < 0.85 or fn == "gru") else ("float32" if r < 0.97 else "float16")
         b = B.Builder(rng, dtype=dtype)
         b.npint_args = True
+        b.conv_documented = True   # every documented-valid conv configuration, incl. those of the recorded over-reject finding
         b.allow_empty = force_empty or rng.random() < 0.04
         shape = B.rand_shape(rng, 3, 4, 0 if b.allow_empty else 1)
         want_nd = [0, 1, 2, 3, 3, 2][k % 6]
